@@ -77,18 +77,28 @@ def run(chk: lib.Check):
                     n = len(getattr(o, name))
                 except Exception:  # noqa: BLE001
                     continue
+                inter = 0
+                if kind in ("direct", "role") and n >= 2:
+                    try:
+                        mem = {id(e) for e in getattr(o, name)._elements}
+                        flags = [id(c) in mem for c in o._element if isinstance(c.tag, str)]
+                        first, last = flags.index(True), len(flags) - 1 - flags[::-1].index(True)
+                        inter = sum(1 for f in flags[first:last + 1] if not f)     # other kinds between members
+                    except Exception:  # noqa: BLE001
+                        inter = 0
                 cur = by_rel.get(k)
-                if cur is None or (n > cur[2] and cur[2] < 3):
-                    by_rel[k] = (o, acc, n, kind)
+                score = (min(inter, 1), min(n, 3))
+                if cur is None or score > cur[4]:
+                    by_rel[k] = (o, acc, n, kind, score)
         per_kind = collections.defaultdict(list)
         for k, v in by_rel.items():
             per_kind[v[3]].append((k, v))
         targets = []
         for kind, lst in sorted(per_kind.items()):
             rng.shuffle(lst)
-            lst.sort(key=lambda kv: -min(kv[1][2], 3))
+            lst.sort(key=lambda kv: tuple(-x for x in kv[1][4]))
             targets += lst[: (15 if quick else 80)]
-        for (clsname, name), (o, acc, n0, kind) in targets:
+        for (clsname, name), (o, acc, n0, kind, _score) in targets:
             cls = getattr(acc, "class_", None)
             seq_len = 8 if quick else 14
             try:
@@ -106,7 +116,7 @@ def run(chk: lib.Check):
                     # object is not a list operation these accessors define — exercised through create / del / item assignment only
                     opk = rng.choice(["create_rel", "del", "setitem", "foreign"])
                 else:
-                    opk = rng.choice(["insert", "insert", "append", "del", "create", "setitem", "insert_dup", "foreign", "clear"])
+                    opk = rng.choice(["insert", "insert", "append", "del", "create", "setitem", "insert_dup", "foreign", "clear", "two_handles"])
                 before_all = elements_snapshot(model, A)
                 before_order = child_order(model, A)
                 desc = f"{clsname}({o.uuid}).{name}[{kind}]"
@@ -141,6 +151,28 @@ def run(chk: lib.Check):
                         desc += f": del [{idx}]"
                         del expected[idx]
                         del lst[idx]
+                    elif opk == "two_handles":
+                        if kind not in ("link", "typecast"):
+                            continue     # only uniqueness-enforcing relations make a promise about a second, stale list object
+                        donor = runner.pick(lambda x: (cls is None or isinstance(x, cls)) and x.uuid not in ref and x._element is not o._element
+                                            and model._loader.find_fragment(x._element).parts[0] == "\0")
+                        if donor is None:
+                            continue
+                        l1, l2 = getattr(o, name), getattr(o, name)
+                        desc += f": two list objects of the relation, both .append({donor.uuid})"
+                        l1.append(donor)
+                        expected.append(donor.uuid)
+                        unique = True
+                        try:
+                            l2.append(donor)
+                        except Exception:  # noqa: BLE001  rejected as duplicate: what a uniqueness-enforcing relation should do
+                            pass
+                        lst = l1
+                        if uuids(getattr(o, name)).count(donor.uuid) > 1 and unique:
+                            chk.violation(f"duplicate-through-second-handle:{kind}", f"{desc}: the uniqueness-enforcing relation now holds the object twice",
+                                          {"model": spec0["name"], "op": desc})
+                            ref = uuids(getattr(o, name)); lst = getattr(o, name)
+                            continue
                     elif opk == "create":
                         if kind not in ("direct", "role", "typecast"):
                             continue
@@ -274,12 +306,42 @@ def run(chk: lib.Check):
                         ins_cases.append(([idx, donor_h, kids], kids_after))
                 ref = expected
                 lst = getattr(o, name) if inhand != expected else lst
+        # every uniqueness-enforcing relation once: the same object appended through two list objects fetched before the edit
+        for (clsname, name), (o, acc, n0, kind, _score) in targets:
+            if kind not in ("link", "typecast") or not runner._alive(o):
+                continue
+            cls = getattr(acc, "class_", None)
+            try:
+                cur = uuids(getattr(o, name))
+                donor = runner.pick(lambda x: (cls is None or isinstance(x, cls)) and x.uuid not in cur and x._element is not o._element
+                                    and model._loader.find_fragment(x._element).parts[0] == "\0")
+                if donor is None:
+                    continue
+                l1, l2 = getattr(o, name), getattr(o, name)
+                l1.append(donor)
+            except Exception:  # noqa: BLE001
+                continue
+            try:
+                l2.append(donor)
+                second = "accepted"
+            except Exception as ex:  # noqa: BLE001
+                second = type(ex).__name__
+            stats[f"two-handles:{kind}:{second}"] += 1
+            try:
+                cnt = uuids(getattr(o, name)).count(donor.uuid)
+            except Exception:  # noqa: BLE001
+                continue
+            chk.note_case((spec0["name"], clsname, name, "two-handles"))
+            raw = sum(1 for c in o._element if isinstance(c.tag, str) and any(("#" + donor.uuid) in v for v in c.attrib.values()))
+            if cnt != 1 or raw > 1:
+                chk.violation(f"duplicate-through-second-handle:{kind}", f"{clsname}({o.uuid}).{name}: appending {donor.uuid} through two list objects of the relation "
+                              f"({second}) leaves it {cnt}x in the list and in {raw} link elements of the model", {"model": spec0["name"], "owner": o.uuid, "relation": name, "donor": donor.uuid})
         # save + reload: the lists come back as written
         try:
             model.save()
             kw = {k: v for k, v in spec_s.items() if k not in ("name", "path")}
             re = capellambse.MelodyModel(str(spec_s["path"]), **kw)
-            for (clsname, name), (o, acc, n0, kind) in targets:
+            for (clsname, name), (o, acc, n0, kind, _score) in targets:
                 if not runner._alive(o):
                     continue
                 try:
